@@ -322,6 +322,9 @@ static void classify_death(int status, const std::string &err, Violation &v)
             v.site = first_repo_frame(err.substr(a));
             size_t eol = err.find('\n', a);
             v.detail = err.substr(a, eol - a);
+            size_t oa = v.detail.find(" on address"); // addresses vary with ASLR: keep them out of files
+            if (oa != std::string::npos)
+                v.detail.resize(oa);
             return;
         }
         if (err.find("runtime error:") != std::string::npos) {
